@@ -2,8 +2,9 @@
 //! held while later items are received; at the end every held `&str` is compared with the copy taken
 //! when it was yielded.
 //!
-//! Line: `alias F <frame>* G <group size>* O <offset of the borrowed bytes in a frame> => <same|diff>@<d>*`
-//! (replies arrive in groups: one transport read per group); `<d>` is the address of the item's
+//! Line: `alias F <frame>* G <group size>*|- C <chunk bytes>* O <offset of the borrowed bytes in a frame> => <same|diff>@<d>*`
+//! (the reply bytes arrive in chunks, one transport read per chunk; `G` gives the chunks in whole replies when
+//! every boundary falls between replies, `-` when a read ends inside a reply); `<d>` is the address of the item's
 //! borrowed bytes minus that of the first item's: items that lie in one unmoved buffer are at the
 //! distances their frames dictate. Total size stays at or below the first growth step (except for the
 //! all-buffered large batches, where growth happens before the first item is yielded), so the pinned
@@ -35,7 +36,7 @@ pub fn frames_of(names: &[String], err_at: Option<(usize, u8)>) -> Vec<Vec<u8>> 
         .collect()
 }
 
-pub fn run_case(names: &[String], groups: &[usize], err_at: Option<(usize, u8)>) -> Vec<String> {
+pub fn run_case(names: &[String], chunks: &[usize], err_at: Option<(usize, u8)>) -> Vec<String> {
     let net = new_net(vec![]);
     let mut conn = Connection::new(SSocket(net.clone()));
     let frames: Vec<Vec<u8>> = frames_of(names, err_at);
@@ -48,17 +49,12 @@ pub fn run_case(names: &[String], groups: &[usize], err_at: Option<(usize, u8)>)
     let w = noop_waker();
     let mut cx = std::task::Context::from_waker(&w);
     let mut held: Vec<(zlink_core::Reply<P2<'_>>, String)> = vec![];
-    let mut next_frame = 0;
+    let wire: Vec<u8> = frames.iter().flat_map(|f| f.iter().copied().chain(std::iter::once(0))).collect();
+    let mut at = 0;
     let mut ended_with_err = false;
-    for g in groups {
-        {
-            let mut n = net.borrow_mut();
-            for f in &frames[next_frame..next_frame + g] {
-                n.avail.extend(f.iter().copied());
-                n.avail.push_back(0);
-            }
-        }
-        next_frame += g;
+    for c in chunks {
+        net.borrow_mut().avail.extend(wire[at..at + c].iter().copied());
+        at += c;
         loop {
             match stream.as_mut().poll_next(&mut cx) {
                 Poll::Ready(Some(Ok(Ok(r)))) => {
@@ -134,13 +130,65 @@ pub fn main(o: &Opts) {
         // every sixth case: one of the replies after the first is a general error (service error / undecodable
         // frame): the stream yields Err and ends while the earlier items are still held
         let err_at = if case % 6 == 5 && k >= 2 { Some((rng.range(1, k - 1), rng.next() as u8)) } else { None };
+        // (an error frame is longer than a reply: where it would push a small batch over the first growth
+        // step, the case goes without it)
+        let err_at = if !big && frames_of(&names, err_at).iter().map(|f| f.len() + 1).sum::<usize>() > 256 { None } else { err_at };
+        let frames = frames_of(&names, err_at);
+        let wire: Vec<u8> = frames.iter().flat_map(|f| f.iter().copied().chain(std::iter::once(0))).collect();
+        let mut chunks: Vec<usize> = vec![];
+        let mut fi = 0;
+        for g in &groups {
+            chunks.push(frames[fi..fi + g].iter().map(|f| f.len() + 1).sum());
+            fi += g;
+        }
+        // every third case: the read boundaries are drawn over the bytes, not over the replies: a read may end
+        // inside a reply, one byte into it or one byte before its end, behind complete replies of the same read.
+        // In the large batches no boundary falls between two replies, so that still everything is buffered
+        // before the first item is yielded.
+        let mut aligned = true;
+        if case % 3 == 1 {
+            let mut cuts: Vec<usize> = vec![];
+            for _ in 0..rng.range(1, 3) {
+                let p = match rng.below(3) {
+                    0 => {
+                        // next to a reply boundary
+                        let b: Vec<usize> = (1..wire.len() - 1).filter(|&i| wire[i - 1] == 0).collect();
+                        if b.is_empty() { rng.range(1, wire.len() - 1) } else {
+                            let x = b[rng.below(b.len())] as i64 + [-2i64, -1, 1, 2][rng.below(4)];
+                            x.clamp(1, wire.len() as i64 - 1) as usize
+                        }
+                    }
+                    _ => rng.range(1, wire.len() - 1),
+                };
+                if big && wire[p - 1] == 0 {
+                    continue;
+                }
+                cuts.push(p);
+            }
+            cuts.sort();
+            cuts.dedup();
+            if !cuts.is_empty() {
+                chunks.clear();
+                let mut last = 0;
+                for &c in &cuts {
+                    chunks.push(c - last);
+                    last = c;
+                    aligned &= wire[c - 1] == 0;
+                }
+                chunks.push(wire.len() - last);
+                if aligned {
+                    groups = chunks.iter().scan(0usize, |a, &c| { let n = wire[*a..*a + c].iter().filter(|&&b| b == 0).count(); *a += c; Some(n) }).collect();
+                }
+            }
+        }
         em.case(|| {
-            let obs = run_case(&names, &groups, err_at);
-            let fs: Vec<String> = frames_of(&names, err_at).iter().map(|f| enc_bytes(f)).collect();
+            let obs = run_case(&names, &chunks, err_at);
+            let fs: Vec<String> = frames.iter().map(|f| enc_bytes(f)).collect();
             vec![format!(
-                "alias F {} G {} O {} X {} => {}",
+                "alias F {} G {} C {} O {} X {} => {}",
                 fs.join(" "),
-                groups.iter().map(|g| g.to_string()).collect::<Vec<_>>().join(" "),
+                if aligned { groups.iter().map(|g| g.to_string()).collect::<Vec<_>>().join(" ") } else { "-".into() },
+                chunks.iter().map(|g| g.to_string()).collect::<Vec<_>>().join(" "),
                 PRE.len(),
                 err_at.map(|(i, _)| i.to_string()).unwrap_or_else(|| "-".into()),
                 obs.join(" ")
